@@ -492,6 +492,7 @@ class Observed:
         self.problems: list = []      # (category, key, text) from the journal monitors
         self.journals: list = []      # every Journal object used
         self.kept: list = []          # what the client kept from looking at the journals (lists of entries, strings)
+        self.last_exit: dict = {}     # id(journal) -> how it was last left ("normal" / "exception"); the journals are in .journals
         self.stats: dict = {}
 
     def add(self, k, n=1):
@@ -815,6 +816,7 @@ class Runner:
         obs.add("journal_exits")
         obs.add("exit_" + how)
         obs.add(f"exit_from_depth_{depth}")
+        obs.last_exit[id(j)] = how
         d = census_diff(pre, census(), self.volatile)
         for cname, attr, facet in d:
             obs.problems.append(("class-not-restored", f"{cname}.{attr}:{facet}",
